@@ -54,6 +54,7 @@ func main() {
 		f(c)
 		if *prop != "C03" && *prop != "C11" {
 			checkKernelPurityFacts(c)
+			checkSessionFacts(c) // a run is a function of its own line and files: no state kept in the session between runs
 		}
 	}()
 	c.Finish(*out)
